@@ -195,19 +195,21 @@ func (l *orderColumnsRow) compare(tp Type, lval, rval Column, reverse bool) int 
 	}
 }
 
-func (l *orderColumnsRow) compareBytes(lval, rval Column, reverse bool) int {
-	var (
-		lbval []byte
-		rbval []byte
-	)
-	switch lval.(type) {
+// orderBytes returns the text of a column holding []byte or string.
+func orderBytes(val Column) ([]byte, bool) {
+	switch v := val.(type) {
 	case []byte:
-		lbval = lval.([]byte)
-		rbval = rval.([]byte)
+		return v, true
 	case string:
-		lbval = []byte(lval.(string))
-		rbval = []byte(rval.(string))
-	default:
+		return []byte(v), true
+	}
+	return nil, false
+}
+
+func (l *orderColumnsRow) compareBytes(lval, rval Column, reverse bool) int {
+	lbval, lok := orderBytes(lval)
+	rbval, rok := orderBytes(rval)
+	if !lok || !rok {
 		return 0
 	}
 	if reverse {
@@ -216,22 +218,23 @@ func (l *orderColumnsRow) compareBytes(lval, rval Column, reverse bool) int {
 	return bytes.Compare(lbval, rbval)
 }
 
-func (l *orderColumnsRow) compareBool(lval, rval Column, reverse bool) int {
-	var (
-		lbool bool
-		rbool bool
-	)
-	switch lval.(type) {
+// orderBool returns the boolean value of a column holding a bool or the text "true".
+func orderBool(val Column) (bool, bool) {
+	switch v := val.(type) {
 	case bool:
-		lbool = lval.(bool)
-		rbool = rval.(bool)
+		return v, true
 	case string:
-		lbool = lval.(string) == "true"
-		rbool = rval.(string) == "true"
+		return v == "true", true
 	case []byte:
-		lbool = bytes.Equal(lval.([]byte), []byte("true"))
-		rbool = bytes.Equal(rval.([]byte), []byte("true"))
-	default:
+		return bytes.Equal(v, []byte("true")), true
+	}
+	return false, false
+}
+
+func (l *orderColumnsRow) compareBool(lval, rval Column, reverse bool) int {
+	lbool, lok := orderBool(lval)
+	rbool, rok := orderBool(rval)
+	if !lok || !rok {
 		return 0
 	}
 	lint := 0
@@ -259,73 +262,57 @@ func (l *orderColumnsRow) compareBool(lval, rval Column, reverse bool) int {
 	}
 }
 
-func (l *orderColumnsRow) compareNumber(lval, rval Column, reverse bool) int {
-	var (
-		lint, rint     int64
-		lfloat, rfloat float64
-		err            error
-		isFloat        bool = false
-	)
-	switch lval.(type) {
+// orderNumber returns the numeric value of a column: an integer (isFloat == false, fval is
+// its conversion) or a float. Text is parsed as an integer first, then as a float.
+func orderNumber(val Column) (ival int64, fval float64, isFloat bool, ok bool) {
+	switch v := val.(type) {
 	case int:
-		lint = int64(lval.(int))
-		rint = int64(rval.(int))
+		ival = int64(v)
 	case int16:
-		lint = int64(lval.(int16))
-		rint = int64(rval.(int16))
+		ival = int64(v)
 	case int32:
-		lint = int64(lval.(int32))
-		rint = int64(rval.(int32))
+		ival = int64(v)
 	case int64:
-		lint = lval.(int64)
-		rint = rval.(int64)
+		ival = v
 	case uint:
-		lint = int64(lval.(uint))
-		rint = int64(rval.(uint))
+		ival = int64(v)
 	case uint16:
-		lint = int64(lval.(uint16))
-		rint = int64(rval.(uint16))
+		ival = int64(v)
 	case uint32:
-		lint = int64(lval.(uint32))
-		rint = int64(rval.(uint32))
+		ival = int64(v)
 	case uint64:
-		lint = int64(lval.(uint64))
-		rint = int64(rval.(uint64))
+		ival = int64(v)
 	case float32:
-		lfloat = float64(lval.(float32))
-		rfloat = float64(rval.(float32))
-		isFloat = true
+		return 0, float64(v), true, true
 	case float64:
-		lfloat = lval.(float64)
-		rfloat = rval.(float64)
-		isFloat = true
+		return 0, v, true, true
 	case []byte:
-		if lint, err = strconv.ParseInt(string(lval.([]byte)), 10, 64); err == nil {
-			if rint, err = strconv.ParseInt(string(rval.([]byte)), 10, 64); err == nil {
-				return l.compareInt(lint, rint, reverse)
-			}
-		}
-		if lfloat, err = strconv.ParseFloat(string(lval.([]byte)), 64); err == nil {
-			if rfloat, err = strconv.ParseFloat(string(rval.([]byte)), 64); err == nil {
-				return l.compareFloat(lfloat, rfloat, reverse)
-			}
-		}
-		return 0
+		return orderNumberText(string(v))
 	case string:
-		if lint, err = strconv.ParseInt(lval.(string), 10, 64); err == nil {
-			if rint, err = strconv.ParseInt(rval.(string), 10, 64); err == nil {
-				return l.compareInt(lint, rint, reverse)
-			}
-		}
-		if lfloat, err = strconv.ParseFloat(lval.(string), 64); err == nil {
-			if rfloat, err = strconv.ParseFloat(rval.(string), 64); err == nil {
-				return l.compareFloat(lfloat, rfloat, reverse)
-			}
-		}
+		return orderNumberText(v)
+	default:
+		return 0, 0, false, false
+	}
+	return ival, float64(ival), false, true
+}
+
+func orderNumberText(s string) (int64, float64, bool, bool) {
+	if ival, err := strconv.ParseInt(s, 10, 64); err == nil {
+		return ival, float64(ival), false, true
+	}
+	if fval, err := strconv.ParseFloat(s, 64); err == nil {
+		return 0, fval, true, true
+	}
+	return 0, 0, false, false
+}
+
+func (l *orderColumnsRow) compareNumber(lval, rval Column, reverse bool) int {
+	lint, lfloat, lisFloat, lok := orderNumber(lval)
+	rint, rfloat, risFloat, rok := orderNumber(rval)
+	if !lok || !rok {
 		return 0
 	}
-
-	if isFloat {
+	if lisFloat || risFloat {
 		return l.compareFloat(lfloat, rfloat, reverse)
 	}
 	return l.compareInt(lint, rint, reverse)
